@@ -190,11 +190,11 @@ func checkTree(c *vrun.Ctx, pool *txPool, cs, ex tla.Value) error {
 	// path 2: CalcMerkleRoot
 	var got chainhash.Hash
 	if p := guard(func() { got = blockchain.CalcMerkleRoot(txs, w) }); p != nil {
+		key := "merkle:calc-root-panics"
 		if len(ids) == 0 {
-			c.Violation("merkle:empty-list-panics", fmt.Sprintf("CalcMerkleRoot of an empty transaction list panics (%v); the definition's root of no leaves is the zero hash", p), replay)
-		} else {
-			c.Violation("merkle:calc-root-panics", fmt.Sprintf("CalcMerkleRoot panics on %d leaves: %v", len(ids), p), replay)
+			key = "merkle:empty-list-panics" // the root of no leaves is the zero hash
 		}
+		c.Violation(key, fmt.Sprintf("CalcMerkleRoot panics on %d leaves: %v", len(ids), p), replay)
 	} else if hashOf(got) != want {
 		c.Violation("merkle:calc-root", fmt.Sprintf("CalcMerkleRoot(ids=%v, witness=%v) = %x, the definition gives %x", ids, w, hashOf(got), want), replay)
 	}
@@ -203,11 +203,11 @@ func checkTree(c *vrun.Ctx, pool *txPool, cs, ex tla.Value) error {
 	// path 1: BuildMerkleTreeStore, every slot
 	var store []*chainhash.Hash
 	if p := guard(func() { store = blockchain.BuildMerkleTreeStore(txs, w) }); p != nil {
+		key := "merkle:store-panics"
 		if len(ids) == 0 {
-			c.Violation("merkle:empty-list-panics", fmt.Sprintf("BuildMerkleTreeStore of an empty transaction list panics (%v)", p), replay)
-		} else {
-			c.Violation("merkle:store-panics", fmt.Sprintf("BuildMerkleTreeStore panics on %d leaves: %v", len(ids), p), replay)
+			key = "merkle:empty-list-panics" // the store of no leaves is the zero root alone
 		}
+		c.Violation(key, fmt.Sprintf("BuildMerkleTreeStore panics on %d leaves: %v", len(ids), p), replay)
 	} else {
 		exs := ex.F("store").Seq()
 		if len(store) != len(exs) {
